@@ -8,6 +8,7 @@ import (
 	"testing"
 	"testing/synctest"
 
+	"github.com/ucan-wg/go-ucan/pkg/command"
 	"github.com/ucan-wg/go-ucan/pkg/meta"
 	"github.com/ucan-wg/go-ucan/token"
 	"github.com/ucan-wg/go-ucan/token/delegation"
@@ -388,6 +389,39 @@ func (e *secretExec) step(s *SecStep) {
 			if ok {
 				b, _ := metaOf(tk).GetBytes("k")
 				check(fmt.Sprintf("token-%d", i), b)
+			}
+		}
+		// ONE option value applied to several tokens (options built once, one token per audience):
+		// every token gets its own encryption
+		iss, other := e.c.ent(0), e.c.ent(1)
+		if p.Kind == "inv" {
+			opt := invocation.WithEncryptedMetaBytes("k", p.Plain, p.Key)
+			if p.AsStr {
+				opt = invocation.WithEncryptedMetaString("k", string(p.Plain), p.Key)
+			}
+			for i := 0; i < 3; i++ {
+				if tk, err := invocation.New(iss.id, other.id, command.MustParse("/a"), nil, opt, invocation.WithNonce([]byte(fmt.Sprintf("nonce-nonce-%02d", i)))); err == nil {
+					b, _ := tk.Meta().GetBytes("k")
+					check(fmt.Sprintf("shared-option-token-%d", i), b)
+				}
+			}
+		} else {
+			opt := delegation.WithEncryptedMetaBytes("k", p.Plain, p.Key)
+			if p.AsStr {
+				opt = delegation.WithEncryptedMetaString("k", string(p.Plain), p.Key)
+			}
+			for i := 0; i < 3; i++ {
+				var tk *delegation.Token
+				var err error
+				if i == 2 {
+					tk, err = delegation.Root(iss.id, other.id, command.MustParse("/a"), nil, opt)
+				} else {
+					tk, err = delegation.New(iss.id, other.id, command.MustParse("/a"), nil, delegation.WithSubject(iss.id), opt)
+				}
+				if err == nil {
+					b, _ := tk.Meta().GetBytes("k")
+					check(fmt.Sprintf("shared-option-token-%d", i), b)
+				}
 			}
 		}
 	case "flip_all":
